@@ -105,7 +105,9 @@ def run(ctx):
         for i, t in enumerate(texts):
             ctx.note_case(t, nontrivial=len(t) > 40)
             try:
-                plain = sweep.fast_loads(t, False, False)
+                # every fifth text goes through the module-level loads for all four combinations (the plain load first,
+                # then the same text again with bookkeeping on), the others through reused workers / open / load
+                plain = mappyfile.loads(t, expand_includes=False) if i % 5 == 3 else sweep.fast_loads(t, False, False)
             except Exception:
                 # a rejected text must be rejected under every combination
                 for ip, ic in flags[1:]:
@@ -118,9 +120,11 @@ def run(ctx):
             want = canon_strip(plain)
             plain_print = dumps(plain, i)
             for ip, ic in flags[1:]:
-                via = (i % 10) if i % 10 in (1, 2) else 0
+                via = (i % 10) if i % 10 in (1, 2) else (3 if i % 5 == 3 else 0)
                 try:
-                    if via == 0:
+                    if via == 3:
+                        d = mappyfile.loads(t, expand_includes=False, include_position=ip, include_comments=ic)
+                    elif via == 0:
                         d = sweep.fast_loads(t, ip, ic)
                     elif via == 1:
                         fn = os.path.join(tmp, "m.map")
